@@ -11,14 +11,20 @@ LEVEL_TEXT = (
     "whole transactions, field by field, including optional validity/signers and chain-specific directives "
     "(C11_tx_roundtrip); 128-bit integers (CBOR integer or bignum, either sign), byte strings, text (UTF-8 bytes back "
     "to the string), types, UTxO references, asset classes, UTxOs with optional datum/script round-trip for every "
-    "value; the version gate accepts exactly the current version. Tied to the code per generated tree: the model "
+    "value; the version gate accepts exactly the current version; the RFC 8949 layer: for every data item within "
+    "what heads can carry (lengths, tags and integers below 2^64, definite and chunked strings, definite and indefinite "
+    "arrays, maps, tags, simple values, floats) and every continuation, the reader run on writer-output ++ rest yields "
+    "the item and rest, and the fuel decode starts with suffices (readItem_encode, decode_encode); composed: "
+    "from_bytes(to_bytes t) = t for every transaction meeting the executable hypotheses bytesHyps (C11_wire_roundtrip, "
+    "C11_bytes_injective). Tied to the code per generated tree: the model "
     "encoder equals encoding::to_bytes byte for byte, the model reader (CBOR reader + untx) reads the REAL bytes back "
     "to the tree that was encoded, every generated expression satisfies the shape hypothesis, and the real "
     "decode(encode t) is canonically equal to t with the same reported parameters and queries and a stable re-encoding."
 )
 LEVEL_NOTE = (
-    "Partial: the byte layer of the round trip (CBOR reader after CBOR writer) is executed per case on the real bytes, "
-    "not a theorem; the real serde-derived decoder is compared on encoder outputs only; that arbitrary, truncated or "
+    "Partial: the hypotheses of the byte-level theorem (bytesHyps: item within CBOR head ranges, slots shaped and no "
+    "larger than the reader's fuel) are evaluated per generated transaction (tag wire-theorem-hyps-hold), not derived "
+    "from the encoder; ciborium's recursion limit (256) is not in the model reader; the real serde-derived decoder is compared on encoder outputs only; that arbitrary, truncated or "
     "deeply nested bytes never panic or abort the real decoder is runtime behaviour of ciborium, explored in child "
     "processes (so that an abort is observed, not fatal)."
 )
@@ -26,7 +32,8 @@ PROP = "C11"
 TARGETS = ["Tx3Proofs.C11", "Tx3Proofs.C11Roundtrip"]
 THEOREMS = ["Tx3.Cbor.beNat_natToBytes", "Tx3.Wire.C11_int128_roundtrip", "Tx3.Wire.C11_bytes_roundtrip", "Tx3.Wire.C11_version_gate",
             "Tx3.Wire.strOf_txtBytes", "Tx3.Wire.txtBytes_inj", "Tx3.Wire.C11_expr_roundtrip", "Tx3.Wire.C11_expr_injective",
-            "Tx3.Wire.C11_tx_roundtrip"]
+            "Tx3.Wire.C11_tx_roundtrip", "Tx3.Cbor.readItem_encode", "Tx3.Cbor.decode_encode", "Tx3.Cbor.wfb_all",
+            "Tx3.Wire.C11_wire_roundtrip", "Tx3.Wire.C11_bytes_injective"]
 RULE = (
     "cases = IR values: every transaction lowered from /repo/examples/*.tx3 and from 30 generated programs; random IR "
     "trees (every expression and block variant, depth 1..6, parameters/inputs/fees/compiler ops, boundary integers, a "
